@@ -2126,3 +2126,21 @@ pub(crate) fn h_sort_new_many_children() {
     }
     vrt_cover(true, "sort_new_many_children_end");
 }
+
+/// C20 (thorough): every version-gated element / enum value with the file version as solver variable, observed on both builds
+pub(crate) fn h_c20_versions() {
+    let n = crate::verif_dev::N_GATED;
+    vrt_cover(n > 0, "version-open documents are in place");
+    if n == 0 { return; }
+    let k = vrt_choice(n);
+    let (rest, _lo, _up, _kind) = crate::verif_dev::gated_doc(k);
+    let strict = vrt_choice(2) == 1;
+    let d1 = vrt_byte_from(b"567");
+    let d2 = vrt_byte_from(b"01");
+    let mut text = String::from("ASAP2_VERSION 1 ");
+    text.push(d1 as char);
+    text.push(d2 as char);
+    text.push('\n');
+    text.push_str(rest);
+    c20_observe(&load_from_string(&text, None, strict));
+}
